@@ -427,6 +427,14 @@ class NFEval:
             return self.add(self.nf(args[0]), self.nf(args[1]), -1)
         if name in ('numpy.full', 'numpy.full_like') and len(args) >= 2:
             return self.nf(args[1])
+        if name in ('numpy.log', 'math.log', 'numpy.log10') and len(args) == 1:
+            x = self.nf(args[0])
+            if isinstance(x, Mono) and x.coef == 1 and not x.f:
+                return self.num(0)
+        if name in ('numpy.exp', 'math.exp') and len(args) == 1:
+            x = self.nf(args[0])
+            if isinstance(x, Mono) and x.coef == 0:
+                return self.num(1)
         ks = []
         for a in args:
             x = self.nf(a)
